@@ -1,6 +1,7 @@
 (** * C10 — the virtual system.local / system.peers present a correct, consistent ring. *)
-From Coq Require Import List ZArith NArith Bool.
-From CqlProxy Require Import Lib.Val Lib.Util Lib.Wire Gen.Tables Model.Handled Model.SysTables Proofs.SysTablesProofs.
+From Coq Require Import List ZArith NArith Bool Permutation Sorting.Sorted.
+From CqlProxy Require Import Lib.Val Lib.Util Lib.Wire Gen.Tables Model.Handled Model.SysTables Proofs.SysTablesProofs
+  Model.SysTablesSpec Proofs.SysTablesProofs2.
 Import ListNotations.
 Local Open Scope N_scope.
 
@@ -42,6 +43,220 @@ Theorem c10_tokens_start_increase_in_range :
     (min_token <= nth_token num_peers i)%Z /\ (nth_token num_peers j <= 9223372036854775807)%Z.
 Proof. exact tokens_start_increase_in_range. Qed.
 Print Assumptions c10_tokens_start_increase_in_range.
+
+(** ---------------------------------------------------------------- mutual consistency *)
+
+(** Computed-token mode.  Take ANY shared peer list (any length) whose entries have pairwise
+    different, non-empty addresses, none of which configures tokens, and whose data centers are
+    coherent (all given, or none given; precisely: whenever some entry has no dc, every member's
+    own effective dc is the cluster dc).  Then every member of the list, run as a proxy with
+    that list as its peers, starts up and presents exactly the same ring -- the nodes of the
+    list in address order, each with its own effective dc, its version-3 host id and the i-th
+    token of [length + 1] equal slices -- and so the executable check [views_agree] is true. *)
+Theorem c10_views_agree_computed :
+  forall shared info,
+    addr_nodup shared -> ips_nonempty shared -> no_tokens shared -> dc_coherent info shared ->
+    (forall a, In a shared -> view_of shared info a = Some (canon_ring info shared)) /\
+    (shared <> [] -> views_agree shared info = true).
+Proof. exact views_agree_computed. Qed.
+Print Assumptions c10_views_agree_computed.
+
+(** The same with the plain hypothesis "every data center is configured", for two members. *)
+Theorem c10_views_agree_computed_two_members :
+  forall shared info a b,
+    addr_nodup shared -> ips_nonempty shared -> no_tokens shared -> dcs_nonempty shared ->
+    In a shared -> In b shared ->
+    exists ring, view_of shared info a = Some ring /\ view_of shared info b = Some ring /\ views_agree shared info = true.
+Proof. exact views_agree_computed_dcs. Qed.
+Print Assumptions c10_views_agree_computed_two_members.
+
+(** Configured-token mode (every entry carries tokens): all members present the same ring,
+    the entries in address order with their configured tokens. *)
+Theorem c10_views_agree_configured :
+  forall shared info,
+    addr_nodup shared -> ips_nonempty shared -> all_tokens shared -> dc_coherent info shared ->
+    (forall a, In a shared -> view_of shared info a = Some (canon_ring_cfg info shared)) /\
+    (shared <> [] -> views_agree shared info = true).
+Proof. exact views_agree_configured. Qed.
+Print Assumptions c10_views_agree_configured.
+
+(** [views_agree] means what it says: when it is true all members present one and the same ring. *)
+Theorem c10_views_agree_sound :
+  forall shared info, views_agree shared info = true ->
+    exists ring, forall a, In a shared -> view_of shared info a = Some ring.
+Proof. exact views_agree_sound. Qed.
+Print Assumptions c10_views_agree_sound.
+
+(** REFUTED without dc coherence.  A peer entry WITHOUT a data center is reported by each proxy
+    with that proxy's OWN data center: three proxies (dc1, dc2, and one without dc) sharing one
+    peer list, distinct addresses, no tokens, and two of them present different rings. *)
+Theorem c10_views_disagree_without_dc_coherence :
+  exists shared info,
+    addr_nodup shared /\ ips_nonempty shared /\ no_tokens shared /\ shared <> [] /\
+    views_agree shared info = false /\
+    (exists a b ra rb, In a shared /\ In b shared /\ view_of shared info a = Some ra /\ view_of shared info b = Some rb /\ ra <> rb).
+Proof. exact views_agree_without_dcs_refuted. Qed.
+Print Assumptions c10_views_disagree_without_dc_coherence.
+
+(** ---------------------------------------------------------------- tokens *)
+
+(** Computed-token mode, any configuration whose start-up succeeds: the nodes are in address
+    order (strictly, if the configured peers have distinct addresses); there are between 1 and
+    [number of configured peers + 1] of them; the i-th node's token list is exactly the single
+    token [nth_token (number of configured peers) i]; and below 2^32 peers the tokens along the
+    ring start at the minimum token, strictly increase, stay in the signed 64-bit range and are
+    pairwise different also as the decimal strings that are sent. *)
+Theorem c10_ring_tokens_computed :
+  forall c nodes,
+    n_tokens (c_local c) = [] -> build_nodes c = Ok nodes ->
+    let k := length (c_peers c) in
+    StronglySorted addr_le nodes /\
+    (addr_nodup (c_peers c) -> StronglySorted addr_lt nodes) /\
+    (1 <= length nodes <= k + 1)%nat /\
+    (forall i n, nth_error nodes i = Some n -> n_tokens n = [print_Z (nth_token k i)]) /\
+    ((Z.of_nat k < 4294967296)%Z ->
+     forall i j a b, (i < j)%nat -> nth_error nodes i = Some a -> nth_error nodes j = Some b ->
+       (min_token <= nth_token k i < nth_token k j)%Z /\ (nth_token k j <= 9223372036854775807)%Z /\
+       (i = 0%nat -> nth_token k i = min_token) /\ n_tokens a <> n_tokens b).
+Proof. exact ring_tokens_computed. Qed.
+Print Assumptions c10_ring_tokens_computed.
+
+(** ---------------------------------------------------------------- projection *)
+
+(** The column metadata of a handled SELECT is exactly the plan written from the property text:
+    each requested identifier gives that table column with its table type (unknown column =
+    error), an alias renames it (the outermost alias wins), `*` expands to all table columns in
+    table order, count gives one int column, now() one timeuuid column; in request order. *)
+Theorem c10_projection_columns_exact :
+  forall table cols sels, filter_columns table cols sels = expected_columns table cols sels.
+Proof. exact filter_columns_exact. Qed.
+Print Assumptions c10_projection_columns_exact.
+
+(** Position by position, the cell under each output column is the value of the table column it
+    stands for (for `*`, each table column's value in order; the count cell under a count
+    column; the clock under now()). *)
+Theorem c10_projection_cells_exact :
+  forall cols value sels cells plan,
+    filter_values cols value sels = Some cells -> expected_plan cols sels = Some plan ->
+    Forall2 (cell_ok value) plan cells.
+Proof. exact filter_values_exact. Qed.
+Print Assumptions c10_projection_cells_exact.
+
+(** A handled SELECT on system.local / system.peers is answered INVALID exactly when it names a
+    column the table does not have; otherwise it is answered with rows. *)
+Theorem c10_local_invalid_iff_unknown_column :
+  forall c nodes sels,
+    (answer_select c nodes (str "local") sels = AInvalid <-> expected_plan (local_cols c) sels = None) /\
+    answer_select c nodes (str "local") sels <> ANotHandled.
+Proof. exact local_invalid_iff. Qed.
+Print Assumptions c10_local_invalid_iff_unknown_column.
+
+Theorem c10_peers_invalid_iff_unknown_column :
+  forall c nodes sels,
+    (answer_select c nodes (str "peers") sels = AInvalid <-> expected_plan (peers_cols c) sels = None) /\
+    answer_select c nodes (str "peers") sels <> ANotHandled.
+Proof. exact peers_invalid_iff. Qed.
+Print Assumptions c10_peers_invalid_iff_unknown_column.
+
+(** ---------------------------------------------------------------- cells decode to the facts *)
+
+(** Wire round trips: an inet cell decodes to the 16-byte address it was made from (an IPv4
+    address travels as its 4 bytes); a set<varchar> cell decodes to the list of strings; an int
+    cell to the integer. *)
+Theorem c10_inet_round_trip : forall ip, length ip = 16%nat -> dec_inet (enc_inet ip) = Some ip.
+Proof. exact dec_inet_enc. Qed.
+Print Assumptions c10_inet_round_trip.
+
+Theorem c10_varchar_set_round_trip :
+  forall l : list bytes,
+    (Z.of_nat (length l) < 2147483648)%Z -> Forall (fun s => (Z.of_nat (length s) < 2147483648)%Z) l ->
+    dec_varchar_list (enc_varchar_list l) = Some l.
+Proof. exact dec_varchar_list_enc. Qed.
+Print Assumptions c10_varchar_set_round_trip.
+
+Theorem c10_int_round_trip : forall z, (-2147483648 <= z < 2147483648)%Z -> dec_int (enc_int z) = Some z.
+Proof. exact dec_int_enc. Qed.
+Print Assumptions c10_int_round_trip.
+
+(** For every well-formed configuration whose start-up succeeds: exactly one node is local and it
+    has this proxy's address, digest and effective data center; every handled SELECT on
+    system.local that is answered with rows has the expected metadata, exactly one row, and at
+    every output position a cell that decodes -- under the type advertised at that position -- to
+    the fact about THIS proxy named by the requested column (count decodes to 1); every handled
+    SELECT on system.peers answered with rows has the expected metadata, one row per non-local
+    node in order, each decoding to the facts about THAT peer, and the count cell decodes to the
+    number of peers rows. *)
+Theorem c10_system_tables_decode :
+  forall c nodes,
+    config_wf c -> build_nodes c = Ok nodes ->
+    exists loc,
+      filter n_local nodes = [loc] /\
+      n_ip loc = n_ip (c_local c) /\ n_zone loc = n_zone (c_local c) /\ n_md5 loc = n_md5 (c_local c) /\
+      n_dc loc = local_dc_of c /\
+      let peers := filter (fun n => negb (n_local n)) nodes in
+      (forall sels out rows, answer_select c nodes (str "local") sels = ARows out rows ->
+         exists plan row, expected_plan (local_cols c) sels = Some plan /\ out = map col_of plan /\ rows = [row] /\
+                          Forall2 (cell_decodes (local_fact c loc) 1) plan row) /\
+      (forall sels out rows, answer_select c nodes (str "peers") sels = ARows out rows ->
+         exists plan, expected_plan (peers_cols c) sels = Some plan /\ out = map col_of plan /\
+                      length rows = length peers /\
+                      Forall2 (fun p row => Forall2 (cell_decodes (peer_fact c p) (Z.of_nat (length peers))) plan row) peers rows).
+Proof. exact system_tables_decode. Qed.
+Print Assumptions c10_system_tables_decode.
+
+(** The sentence of the property text, cell by cell, for system.local. *)
+Theorem c10_local_named_cells :
+  forall c nodes,
+    config_wf c -> build_nodes c = Ok nodes ->
+    let loc := hd (c_local c) (filter n_local nodes) in
+    (exists b, local_value c loc (str "rpc_address") = Some b /\ dec_inet b = Some (n_ip (c_local c))) /\
+    local_value c loc (str "data_center") = Some (local_dc_of c) /\
+    (exists b, local_value c loc (str "tokens") = Some b /\ dec_varchar_list b = Some (n_tokens loc)) /\
+    local_value c loc (str "host_id") = Some (uuid_of_md5 (n_md5 (c_local c))) /\
+    (exists b, local_value c loc (str "count(*)") = Some b /\ dec_int b = Some 1%Z).
+Proof. exact local_named_cells. Qed.
+Print Assumptions c10_local_named_cells.
+
+(** ... and for each row of system.peers. *)
+Theorem c10_peer_named_cells :
+  forall c nodes p,
+    config_wf c -> build_nodes c = Ok nodes ->
+    let loc := hd (c_local c) (filter n_local nodes) in
+    let peers := filter (fun n => negb (n_local n)) nodes in
+    In p peers ->
+    (exists b, peer_value c loc p (length nodes - 1) (str "peer") = Some b /\ dec_inet b = Some (n_ip p)) /\
+    (exists b, peer_value c loc p (length nodes - 1) (str "rpc_address") = Some b /\ dec_inet b = Some (n_ip p)) /\
+    peer_value c loc p (length nodes - 1) (str "data_center") = Some (n_dc p) /\
+    (exists b, peer_value c loc p (length nodes - 1) (str "tokens") = Some b /\ dec_varchar_list b = Some (n_tokens p)) /\
+    peer_value c loc p (length nodes - 1) (str "host_id") = Some (uuid_of_md5 (n_md5 p)) /\
+    (exists b, peer_value c loc p (length nodes - 1) (str "count(*)") = Some b /\ dec_int b = Some (Z.of_nat (length peers))).
+Proof. exact peer_named_cells. Qed.
+Print Assumptions c10_peer_named_cells.
+
+(** ---------------------------------------------------------------- local is self *)
+
+(** Whatever the configuration, if start-up succeeds: exactly one node is local, system.local
+    describes it, and it is this proxy; every other node is non-local, does NOT have this
+    proxy's address (a peer entry with the proxy's own address is not listed as a peer), and is
+    one of the configured peers (same address and digest; its own dc, or the proxy's if it has
+    none); conversely every configured peer with another address appears; the count cell of
+    system.peers ([length nodes - 1]) is the number of peers rows. *)
+Theorem c10_local_is_self :
+  forall c nodes,
+    build_nodes c = Ok nodes ->
+    let peers := filter (fun n => negb (n_local n)) nodes in
+    exists loc,
+      filter n_local nodes = [loc] /\ hd (c_local c) (filter n_local nodes) = loc /\
+      n_ip loc = n_ip (c_local c) /\ n_zone loc = n_zone (c_local c) /\ n_md5 loc = n_md5 (c_local c) /\
+      n_dc loc = local_dc_of c /\
+      Forall (fun p => n_local p = false /\ addr_cmp (c_local c) p <> Eq /\
+                       exists q, In q (c_peers c) /\ n_ip p = n_ip q /\ n_zone p = n_zone q /\ n_md5 p = n_md5 q /\
+                                 n_dc p = match n_dc q with [] => local_dc_of c | d => d end) peers /\
+      (length nodes - 1 = length peers)%nat /\ (length peers <= length (c_peers c))%nat /\
+      (forall q, In q (c_peers c) -> addr_cmp (c_local c) q <> Eq ->
+                 exists p, In p peers /\ n_ip p = n_ip q /\ n_zone p = n_zone q).
+Proof. exact local_is_self. Qed.
+Print Assumptions c10_local_is_self.
 
 (** Non-vacuity / evaluated instance of "views agree": three proxies sharing one peer list. *)
 Definition nd (a b c d : N) (dc : String.string) : node :=
